@@ -1,12 +1,18 @@
-import CalicoVerif.Proofs.C15r
+import CalicoVerif.Proofs.C15ra
 set_option linter.unusedSimpArgs false
 namespace CalicoVerif.C15
 
-/-- The invariant together with the (constant) name space. -/
-def PInv (P : List String) (t : T) : Prop := TInv t ∧ t.prefixes = P
-
 def oursP (P : List String) (c : String) : Bool := P.any (fun p => hasPrefix c p)
 theorem ours_eq (t : T) (c : String) : t.ours c = oursP t.prefixes c := rfl
+
+/-- The invariant together with the (constant) name space and the name-space discipline: only Felix's chains are
+ever dirty, and rules only jump to Felix's chains. -/
+def PInv (P : List String) (t : T) : Prop := TInv t ∧ t.prefixes = P ∧ DInv (fun x => oursP P x = true) t
+
+theorem DInv.load' {P : List String} {t : T} (hp : t.prefixes = P) (h : DInv (fun x => oursP P x = true) t) (K : Kernel) :
+    DInv (fun x => oursP P x = true) (t.load K) := by
+  subst hp
+  exact DInv.load (t := t) h K
 
 theorem load_prefixes (t : T) (K : Kernel) : (t.load K).prefixes = t.prefixes := by
   obtain ⟨t2, hrel, hload, _⟩ := load_desc t K
@@ -23,10 +29,10 @@ theorem setAppends_prefixes (t : T) (c : String) (rules : List DRule) : (t.setAp
   exact ((maybeDecref_grow _ c _).prefixes).trans ((maybeIncref_grow _ c rules).prefixes)
 
 theorem PInv.load {P : List String} {t : T} (h : PInv P t) (K : Kernel) : PInv P (t.load K) :=
-  ⟨h.1.load K, (load_prefixes t K).trans h.2⟩
-theorem PInv.invalidate {P : List String} {t : T} (h : PInv P t) : PInv P t.invalidate := ⟨h.1.invalidate, h.2⟩
+  ⟨h.1.load K, (load_prefixes t K).trans h.2.1, DInv.load' h.2.1 h.2.2 K⟩
+theorem PInv.invalidate {P : List String} {t : T} (h : PInv P t) : PInv P t.invalidate := ⟨h.1.invalidate, h.2.1, h.2.2.invalidate⟩
 theorem PInv.commit {P : List String} {t : T} (h : PInv P t) {lines newH newFull}
-    (hp : t.plan = some (lines, newH, newFull)) : PInv P (t.commit newH newFull) := ⟨h.1.commit hp, h.2⟩
+    (hp : t.plan = some (lines, newH, newFull)) : PInv P (t.commit newH newFull) := ⟨h.1.commit hp, h.2.1, h.2.2.commit newH newFull⟩
 
 theorem applyPre_t (w : W) : w.applyPre.t = w.t := by
   unfold W.applyPre
@@ -105,28 +111,35 @@ theorem apply_pinv {P : List String} (w : W) (h : PInv P w.t) : PInv P w.apply.1
     · exact this
     · exact this
 
-/-- Well-formed calls: hook rules are only ever put into chains outside Felix's name space (the kernel's chains). -/
+/-- Well-formed calls (the conventions of Felix's callers): chains that are created, updated or removed carry one of
+Felix's prefixes; hook rules are only put into chains outside Felix's name space (the kernel's chains); and every
+rule only jumps to one of Felix's chains. -/
 def Op.wf (P : List String) : Op → Prop
-  | .ins c _ => oursP P c = false
-  | .app c _ => oursP P c = false
+  | .chain c ch => oursP P c = true ∧ ∀ x ∈ refsOf ch.rules, oursP P x = true
+  | .rmchain c => oursP P c = true
+  | .ins c rs => oursP P c = false ∧ ∀ x ∈ refsOf rs, oursP P x = true
+  | .app c rs => oursP P c = false ∧ ∀ x ∈ refsOf rs, oursP P x = true
   | _ => True
 
 theorem stepOp_pinv {P : List String} (hk : ∀ c ∈ kernelChains, oursP P c = false) (w : W) (o : Op) (hwf : o.wf P)
     (h : PInv P w.t) : PInv P (w.stepOp o).1.t := by
   cases o with
   | restart m =>
-    refine ⟨TInv.new _ m ?_, h.2⟩
+    refine ⟨TInv.new _ m ?_, h.2.1, DInv.new _ _ m⟩
     intro c hc
     show oursP w.t.prefixes c = false
-    rw [h.2]; exact hk c hc
+    rw [h.2.1]; exact hk c hc
   | kchain n rs => exact h
   | kdelchain n => exact h
-  | chain n ch => exact ⟨h.1.updateChain n ch, (updateChain_grow w.t n ch).prefixes.trans h.2⟩
-  | rmchain n => exact ⟨h.1.removeChain n, (removeChain_grow w.t n).prefixes.trans h.2⟩
+  | chain n ch =>
+    exact ⟨h.1.updateChain n ch, (updateChain_grow w.t n ch).prefixes.trans h.2.1, h.2.2.updateChain n ch hwf.1 hwf.2⟩
+  | rmchain n => exact ⟨h.1.removeChain n, (removeChain_grow w.t n).prefixes.trans h.2.1, h.2.2.removeChain n hwf⟩
   | ins c rs =>
-    exact ⟨h.1.setInserts c rs (by rw [ours_eq, h.2]; exact hwf), (setInserts_prefixes w.t c rs).trans h.2⟩
+    exact ⟨h.1.setInserts c rs (by rw [ours_eq, h.2.1]; exact hwf.1), (setInserts_prefixes w.t c rs).trans h.2.1,
+      h.2.2.setInserts c rs hwf.2⟩
   | app c rs =>
-    exact ⟨h.1.setAppends c rs (by rw [ours_eq, h.2]; exact hwf), (setAppends_prefixes w.t c rs).trans h.2⟩
+    exact ⟨h.1.setAppends c rs (by rw [ours_eq, h.2.1]; exact hwf.1), (setAppends_prefixes w.t c rs).trans h.2.1,
+      h.2.2.setAppends c rs hwf.2⟩
   | invalidate => exact h.invalidate
   | apply sf rf pre => exact apply_pinv { w with saveFails := sf, restoreFails := rf, pre := pre, trace := [] } h
 
